@@ -15,6 +15,10 @@ use std::io::{BufRead, Write};
 use std::sync::mpsc;
 use std::time::Duration;
 
+thread_local! {
+    static LAST_PANIC: std::cell::RefCell<String> = std::cell::RefCell::new(String::new());
+}
+
 fn jstr(s: &str) -> String {
     let mut o = String::with_capacity(s.len() + 2);
     o.push('"');
@@ -170,7 +174,8 @@ fn do_compile(argv: Vec<String>, src: Vec<u8>) -> String {
         Ok(Err(e)) => format!("\"status\":\"err\",\"err\":{},\"display\":{}", err_json(&e), jstr(&format!("{}", e))),
         Err(p) => {
             let m = if let Some(s) = p.downcast_ref::<&str>() { s.to_string() } else if let Some(s) = p.downcast_ref::<String>() { s.clone() } else { "?".to_string() };
-            format!("\"status\":\"panic\",\"msg\":{}", jstr(&m))
+            let loc = LAST_PANIC.with(|c| c.borrow().clone());
+            format!("\"status\":\"panic\",\"msg\":{},\"loc\":{}", jstr(&m), jstr(&loc))
         }
     }
 }
@@ -253,7 +258,11 @@ fn with_watchdog<F: FnOnce() -> String + Send + 'static>(f: F, ms: u64) -> Strin
 }
 
 fn main() {
-    std::panic::set_hook(Box::new(|_| {}));
+    // keep the location of the last panic of each thread (reported with the panic message)
+    std::panic::set_hook(Box::new(|info| {
+        let loc = info.location().map(|l| format!("{}:{}", l.file(), l.line())).unwrap_or_default();
+        LAST_PANIC.with(|c| *c.borrow_mut() = loc);
+    }));
     let timeout_ms: u64 = std::env::var("CCDRV_TIMEOUT_MS").ok().and_then(|s| s.parse().ok()).unwrap_or(5000);
     let stdin = std::io::stdin();
     let stdout = std::io::stdout();
